@@ -7,8 +7,15 @@ From stdpp Require Import gmap.
 (* the catalog holds a service definition exactly; it holds a check definition up to the two
    fields it copies from its own service row (ServiceName, ServiceTags) *)
 Definition holds_svc (c : cat) (id : N) (d : svc) : Prop := c_svcs c !! id = Some d.
-Definition holds_chk (c : cat) (id : N) (d : chk) : Prop :=
-  exists r, c_chks c !! id = Some r /\ chk_core r = chk_core d.
+Definition holds_chk_upto (blank : bool) (c : cat) (id : N) (d : chk) : Prop :=
+  exists r, c_chks c !! id = Some r /\ chk_core_upto blank r = chk_core_upto blank d.
+Definition holds_chk (c : cat) (id : N) (d : chk) : Prop := holds_chk_upto false c id d.
+(* what can be said of a local entry: held, up to the Output while its deferred-output timer is
+   pending (UpdateCheck with CheckUpdateInterval > 0 changes the local Output without a push) *)
+Definition holds_ce (c : cat) (id : N) (e : centry) (d : chk) : Prop := holds_chk_upto (ce_defer e) c id d.
+
+Lemma holds_chk_weaken b c id d : holds_chk c id d -> holds_chk_upto b c id d.
+Proof. intros (r & L & E). exists r. split; [exact L|apply chk_core_weaken; exact E]. Qed.
 
 (* the registration of the entry was refused by ACLs (permission denied / ACL not found) in
    this log: for a check either its own registration, or the service registration it rode on *)
@@ -38,18 +45,32 @@ Definition bind_ok (st : lstate) (c : cat) : Prop :=
                    c_chks c !! id = Some r -> ck_sid r = ck_sid d.
 
 Definition sle (e e0 : sentry) : Prop := e = e0 \/ e = se_set_sync true e0.
-Definition cle (e e0 : centry) : Prop := e = e0 \/ e = ce_set_sync true e0.
+(* a check entry after some sync steps: untouched, or it was out of sync and only its InSync flag
+   and its deferred-output timer may have changed *)
+Definition cle (e e0 : centry) : Prop :=
+  e = e0 \/ (ce_sync e0 = false /\ ce_def e = ce_def e0 /\ ce_del e = ce_del e0 /\ ce_tok e = ce_tok e0 /\ ce_loc e = ce_loc e0 /\
+              (ce_defer e = true -> ce_defer e0 = true)).
 
 Lemma sle_refl e : sle e e. Proof. left; reflexivity. Qed.
 Lemma cle_refl e : cle e e. Proof. left; reflexivity. Qed.
 Lemma sle_mark e e0 : sle e e0 -> sle (se_set_sync true e) e0.
 Proof. intros [->| ->]; right; reflexivity. Qed.
-Lemma cle_mark e e0 : cle e e0 -> cle (ce_set_sync true e) e0.
-Proof. intros [->| ->]; right; reflexivity. Qed.
+Lemma ce_set_sync_id e : ce_sync e = true -> ce_set_sync true e = e.
+Proof. destruct e; cbn; intros ->; reflexivity. Qed.
+Lemma cle_mark e : cle (ce_set_sync true e) e.
+Proof. destruct (ce_sync e) eqn:S; [left; apply ce_set_sync_id; exact S|right; cbn; auto 10]. Qed.
+Lemma cle_clear e : ce_sync e = false -> cle (ce_clear_defer e) e.
+Proof. intros S. right. cbn. repeat split; auto; discriminate. Qed.
+Lemma cle_mark_clear e : ce_sync e = false -> cle (ce_set_sync true (ce_clear_defer e)) e.
+Proof. intros S. right. cbn. repeat split; auto; discriminate. Qed.
+Lemma cle_defer e e0 : cle e e0 -> ce_defer e = true -> ce_defer e0 = true.
+Proof. intros [->|(_ & _ & _ & _ & _ & H)]; auto. Qed.
+Lemma cle_sync e e0 : cle e e0 -> ce_sync e0 = true -> e = e0.
+Proof. intros [->|(S & _)] H; [reflexivity|congruence]. Qed.
 Lemma sle_def e e0 : sle e e0 -> se_def e = se_def e0 /\ se_del e = se_del e0 /\ se_tok e = se_tok e0 /\ se_loc e = se_loc e0.
 Proof. intros [->| ->]; auto. Qed.
 Lemma cle_def e e0 : cle e e0 -> ce_def e = ce_def e0 /\ ce_del e = ce_del e0 /\ ce_tok e = ce_tok e0 /\ ce_loc e = ce_loc e0.
-Proof. intros [->| ->]; auto. Qed.
+Proof. intros [->|(_ & H1 & H2 & H3 & H4 & _)]; auto. Qed.
 
 Lemma refused_svc_mono log ev id : refused_svc log id -> refused_svc (log ++ [ev]) id.
 Proof. intros [x [Hin H]]. exists x. split; [apply in_or_app; auto|exact H]. Qed.
@@ -63,10 +84,10 @@ Proof. intros [[x [Hin H]]|[x [Hin H]]]; exists x; (split; [apply in_or_app; aut
 Global Instance holds_svc_dec c id d : Decision (holds_svc c id d).
 Proof. unfold holds_svc. apply _. Defined.
 
-Lemma holds_chk_dec c id d : holds_chk c id d \/ ~ holds_chk c id d.
+Lemma holds_chk_dec b c id d : holds_chk_upto b c id d \/ ~ holds_chk_upto b c id d.
 Proof.
-  unfold holds_chk. destruct (c_chks c !! id) as [r|] eqn:L.
-  - destruct (decide (chk_core r = chk_core d)) as [E|E].
+  unfold holds_chk_upto. destruct (c_chks c !! id) as [r|] eqn:L.
+  - destruct (decide (chk_core_upto b r = chk_core_upto b d)) as [E|E].
     + left. eauto.
     + right. intros [r' [[= <-] H]]. contradiction.
   - right. intros [r' [H _]]. discriminate.
@@ -84,11 +105,15 @@ Proof. intros H. inversion H; subst; cbn; eauto 8. Qed.
 Lemma step_chks_shape g st c st' c' ev :
   Step g st c st' c' ev ->
   l_chks st' = l_chks st \/
-  (exists id e, l_chks st !! id = Some e /\ l_chks st' = <[id := ce_set_sync true e]> (l_chks st)) \/
+  (exists id e e', l_chks st !! id = Some e /\ cle e' e /\ l_chks st' = <[id := e']> (l_chks st)) \/
   (exists id e, l_chks st !! id = Some e /\ ce_del e = true /\ l_chks st' = delete id (l_chks st)) \/
   (exists id tok, l_chks st' = mark_pig g id tok (l_chks st)) \/
   (exists id e, l_svcs st !! id = Some e /\ se_del e = true /\ l_chks st' = prune_chks id (l_chks st)).
-Proof. intros H. inversion H; subst; cbn; eauto 10. Qed.
+Proof.
+  intros H. inversion H; subst; cbn; eauto 10;
+    right; left; eexists _, _, _; (split; [eassumption|split; [|reflexivity]]);
+    auto using cle_mark, cle_clear, cle_mark_clear.
+Qed.
 
 (* every entry after a step is an entry before the step, possibly marked in sync *)
 Lemma step_svcs_back g st c st' c' ev id e :
@@ -106,12 +131,12 @@ Lemma step_chks_back g st c st' c' ev id e :
   exists e1, l_chks st !! id = Some e1 /\ cle e e1.
 Proof.
   intros H L.
-  apply step_chks_shape in H as [E|[(i & x & Lx & E)|[(i & x & Lx & Dx & E)|[(i & tok & E)|(i & x & Lx & Dx & E)]]]]; rewrite E in L.
+  apply step_chks_shape in H as [E|[(i & x & x' & Lx & Cx & E)|[(i & x & Lx & Dx & E)|[(i & tok & E)|(i & x & Lx & Dx & E)]]]]; rewrite E in L.
   - eauto using cle_refl.
-  - apply lookup_insert_Some in L as [[<- <-]|[_ L]]; [exists x; split; [exact Lx|right; reflexivity]|eauto using cle_refl].
+  - apply lookup_insert_Some in L as [[<- <-]|[_ L]]; [exists x; split; [exact Lx|exact Cx]|eauto using cle_refl].
   - apply lookup_delete_Some in L as [_ L]. eauto using cle_refl.
   - rewrite mark_pig_lookup in L. destruct (l_chks st !! id) as [e1|]; [|discriminate].
-    exists e1. split; [reflexivity|]. injection L as <-. destruct (is_pig g i tok e1); [right|left]; reflexivity.
+    exists e1. split; [reflexivity|]. injection L as <-. destruct (is_pig g i tok e1); [apply cle_mark|apply cle_refl].
   - apply prune_lookup_Some in L as [L _]. eauto using cle_refl.
 Qed.
 
@@ -130,7 +155,7 @@ Lemma step_chks_gone g st c st' c' ev id e :
   Step g st c st' c' ev -> l_chks st !! id = Some e -> l_chks st' !! id = None -> ce_del e = true.
 Proof.
   intros H L N.
-  apply step_chks_shape in H as [E|[(i & x & Lx & E)|[(i & x & Lx & Dx & E)|[(i & tok & E)|(i & x & Lx & Dx & E)]]]]; rewrite E in N.
+  apply step_chks_shape in H as [E|[(i & x & x' & Lx & Cx & E)|[(i & x & Lx & Dx & E)|[(i & tok & E)|(i & x & Lx & Dx & E)]]]]; rewrite E in N.
   - congruence.
   - destruct (decide (i = id)) as [->|Hne]; [rewrite lookup_insert in N; discriminate|].
     rewrite lookup_insert_ne in N by exact Hne. congruence.
@@ -212,8 +237,7 @@ Lemma step_cchks g st c st' c' ev id :
   Step g st c st' c' ev ->
   c_chks c' !! id = c_chks c !! id \/
   (exists e d r, l_chks st !! id = Some e /\ ce_del e = false /\ ce_def e = Some d /\
-                 c_chks c' !! id = Some r /\ chk_core r = chk_core d /\
-                 l_chks st' !! id = Some (ce_set_sync true e)) \/
+                 c_chks c' !! id = Some r /\ chk_core r = chk_core d) \/
   (c_chks c' !! id = None /\
    ((exists e, l_chks st !! id = Some e /\ ce_del e = true /\ l_chks st' !! id = None) \/
     (exists sid e r, l_svcs st !! sid = Some e /\ se_del e = true /\ c_chks c !! id = Some r /\ ck_sid r = sid))).
@@ -225,8 +249,7 @@ Proof.
     destruct (is_pig_spec _ _ _ _ P) as (dx & Fx & Dx & Sx & Bx). rewrite Fx.
     destruct (Hall id dx) as [r Hr]; [rewrite pig_of_lookup, Lx, P; exact Fx|]. rewrite Hr.
     right; left. exists x, dx, r. repeat split; auto.
-    + apply stamp_Some in Hr as [Hr _]. exact Hr.
-    + rewrite mark_pig_lookup, Lx, P. reflexivity.
+    apply stamp_Some in Hr as [Hr _]. exact Hr.
   - (* delsvc_ok *) rewrite dereg_svc_chks. destruct (c_svcs c !! id0) eqn:Ls; [|auto].
     destruct (c_chks c !! id) as [r|] eqn:Lr; [|auto].
     destruct (decide (ck_sid r = id0)) as [E|E]; [|auto].
@@ -235,8 +258,7 @@ Proof.
     destruct (decide (id0 = id)) as [->|Hne].
     + rewrite lookup_singleton. destruct (Hall id d) as [r Hr]; [apply lookup_singleton|]. rewrite Hr.
       right; left. exists e, d, r. repeat split; auto.
-      * apply stamp_Some in Hr as [Hr _]. exact Hr.
-      * apply lookup_insert.
+      apply stamp_Some in Hr as [Hr _]. exact Hr.
     + rewrite lookup_singleton_ne by exact Hne. auto.
   - (* delchk_ok *) destruct (decide (id0 = id)) as [->|Hne].
     + right; right. rewrite !lookup_delete. split; [reflexivity|]. left. eauto.
@@ -274,7 +296,7 @@ Lemma step_mark_chk g st c st' c' ev id e e' :
              (refusal (e_out ev) = true /\
               ((e_kind ev = KSyncChk /\ e_id ev = id) \/ (e_kind ev = KSyncSvc /\ In id (e_pig ev))))).
 Proof.
-  intros H L L' S S' D. unfold holds_chk.
+  intros H L L' S S' D. unfold holds_chk, holds_chk_upto.
   inversion H; subst; cbn in *; try congruence.
   - (* svc_ok *) rewrite mark_pig_lookup, L in L'. injection L' as <-.
     destruct (is_pig g id0 (reg_token g (se_tok e0) (se_loc e0)) e) eqn:P; [|congruence].
@@ -293,6 +315,9 @@ Proof.
       apply cat_register_Some in H5 as (_ & _ & Hc & Hall). rewrite Hc, reg_chks_lookup, lookup_singleton.
       destruct (Hall id d) as [r Hr]; [apply lookup_singleton|]. rewrite Hr.
       exists r. split; [reflexivity|]. apply stamp_Some in Hr as [Hr _]. exact Hr.
+    + rewrite lookup_insert_ne in L' by exact Hne. congruence.
+  - (* chk_fail *) destruct (decide (id0 = id)) as [->|Hne].
+    + rewrite lookup_insert in L'. injection L' as <-. cbn in S'. congruence.
     + rewrite lookup_insert_ne in L' by exact Hne. congruence.
   - destruct (decide (id0 = id)) as [->|Hne].
     + exists d. split; [congruence|]. right. auto.
@@ -317,20 +342,20 @@ Proof.
   - congruence.
 Qed.
 
-Lemma step_keep_chk g st c st' c' ev id e' d :
+Lemma step_keep_chk b g st c st' c' ev id e' d :
   Step g st c st' c' ev -> wf_local st -> l_chks st' !! id = Some e' -> ce_del e' = false -> ce_def e' = Some d ->
-  holds_chk c id d -> holds_chk c' id d.
+  holds_chk_upto b c id d -> holds_chk_upto b c' id d.
 Proof.
-  intros H (W1 & W2 & W3) L' D F (r & Lr & Cr). unfold holds_chk.
+  intros H (W1 & W2 & W3) L' D F (r & Lr & Cr). unfold holds_chk_upto.
   destruct (step_chks_back _ _ _ _ _ _ _ _ H L') as (e1 & L1 & S1). apply cle_def in S1 as (Sd & Sl & _).
-  destruct (step_cchks _ _ _ _ _ _ id H) as [E|[(e & dx & rx & Le & De & Fe & E & Cx & _)|(E & [(e & Le & De & N)|(sid & e & rx & Le & De & Lx & Bx)])]].
+  destruct (step_cchks _ _ _ _ _ _ id H) as [E|[(e & dx & rx & Le & De & Fe & E & Cx)|(E & [(e & Le & De & N)|(sid & e & rx & Le & De & Lx & Bx)])]].
   - exists r. split; congruence.
-  - exists rx. split; [exact E|]. congruence.
+  - exists rx. split; [exact E|]. apply chk_core_weaken. congruence.
   - congruence.
   - exfalso. rewrite Lr in Lx. injection Lx as <-.
     destruct (W2 id e1 L1) as (d1 & F1 & Hs); [congruence|].
     assert (d1 = d) by congruence. subst d1.
-    assert (Hsid : ck_sid d = sid) by (unfold chk_core in Cr; congruence).
+    assert (Hsid : ck_sid d = sid) by (unfold chk_core_upto in Cr; congruence).
     destruct Hs as [Hs|(s & Ls & Ds)]; [congruence|]. congruence.
 Qed.
 
@@ -405,6 +430,8 @@ Proof.
     rewrite lookup_insert_ne in N by exact Hne. congruence.
   - destruct (decide (id0 = id)) as [->|Hne]; [rewrite lookup_insert in N; discriminate|].
     rewrite lookup_insert_ne in N by exact Hne. congruence.
+  - destruct (decide (id0 = id)) as [->|Hne]; [rewrite lookup_insert in N; discriminate|].
+    rewrite lookup_insert_ne in N by exact Hne. congruence.
   - destruct (decide (id0 = id)) as [->|Hne]; [apply lookup_delete|].
     rewrite lookup_delete_ne in N by exact Hne. congruence.
   - destruct (decide (id0 = id)) as [->|Hne]; [assumption|].
@@ -427,13 +454,15 @@ Qed.
 
 Lemma se_set_sync_id e : se_sync e = true -> se_set_sync true e = e.
 Proof. destruct e; cbn; intros ->; reflexivity. Qed.
-Lemma ce_set_sync_id e : ce_sync e = true -> ce_set_sync true e = e.
-Proof. destruct e; cbn; intros ->; reflexivity. Qed.
 
 Lemma sle_trans e e1 e0 : sle e e1 -> sle e1 e0 -> sle e e0.
 Proof. intros [->| ->] [->| ->]; unfold sle; auto. Qed.
 Lemma cle_trans e e1 e0 : cle e e1 -> cle e1 e0 -> cle e e0.
-Proof. intros [->| ->] [->| ->]; unfold cle; auto. Qed.
+Proof.
+  intros [->|(S1 & A1 & B1 & C1 & D1 & F1)] H; [exact H|]. destruct H as [->|(S0 & A0 & B0 & C0 & D0 & F0)].
+  - right. auto 10.
+  - right. repeat split; try congruence. auto.
+Qed.
 
 Record INV (st0 : lstate) (c0 : cat) (st : lstate) (c : cat) (log : list event) : Prop := {
   inv_svcs : forall id e, l_svcs st !! id = Some e -> exists e0, l_svcs st0 !! id = Some e0 /\ sle e e0;
@@ -446,14 +475,14 @@ Record INV (st0 : lstate) (c0 : cat) (st : lstate) (c : cat) (log : list event) 
   inv_hs : forall id e d, l_svcs st !! id = Some e -> se_sync e = true -> se_del e = false -> se_def e = Some d ->
              holds_svc c id d \/ refused_svc log id \/ (l_svcs st0 !! id = Some e /\ ~ holds_svc c0 id d);
   inv_hc : forall id e d, l_chks st !! id = Some e -> ce_sync e = true -> ce_del e = false -> ce_def e = Some d ->
-             holds_chk c id d \/ refused_chk log id \/ (l_chks st0 !! id = Some e /\ ~ holds_chk c0 id d)
+             holds_ce c id e d \/ refused_chk log id \/ (l_chks st0 !! id = Some e /\ ~ holds_ce c0 id e d)
 }.
 
 Lemma INV_init st0 c0 : wf_local st0 -> INV st0 c0 st0 c0 [].
 Proof.
   intros W. split; eauto using sle_refl, cle_refl; try congruence.
   - intros id e d L S D F. destruct (decide (holds_svc c0 id d)); auto.
-  - intros id e d L S D F. destruct (holds_chk_dec c0 id d); auto.
+  - intros id e d L S D F. destruct (holds_chk_dec (ce_defer e) c0 id d); auto.
 Qed.
 
 Lemma INV_step g st0 c0 st c log st' c' ev :
@@ -494,13 +523,13 @@ Proof.
     destruct (step_chks_back _ _ _ _ _ _ _ _ H L') as (e1 & L1 & S1).
     pose proof (cle_def _ _ S1) as (Sd & Sl & _).
     destruct (ce_sync e1) eqn:Sy1.
-    + assert (e' = e1) as -> by (destruct S1 as [->| ->]; [reflexivity|apply ce_set_sync_id; exact Sy1]).
+    + assert (e' = e1) as -> by (apply cle_sync; assumption).
       destruct (Ihc id e1 d L1 Sy1 D' F') as [Hh|[Hr|Ho]].
-      * left. eapply step_keep_chk; eauto.
+      * left. unfold holds_ce in *. eapply step_keep_chk; eauto.
       * right; left. apply refused_chk_mono. exact Hr.
       * auto.
     + destruct (step_mark_chk _ _ _ _ _ _ _ _ _ H L1 L' Sy1 S') as (dx & Fx & [Hh|(R1 & R2)]); [congruence| |].
-      * left. congruence.
+      * left. apply holds_chk_weaken. congruence.
       * right; left. exists ev. split; [apply in_or_app; right; left; reflexivity|auto].
 Qed.
 
